@@ -164,6 +164,48 @@ def run(tier, seed, opens):
                 fail('API-built transaction read back', raw, repr(back)[:300], repr(supplied)[:300])
         except Exception as e:
             fail('API-built transaction', b'', 'raises %r (supplied %s)' % (e, repr(supplied)[:200]), 'a transaction')
+    # signed transactions changed through the setter API (absolute / relative lock times): what the object REPORTS afterwards (version, lock time,
+    # sequences, outputs) is what the independent parser reads from its bytes; relative locks are BIP68-encoded and need version >= 2
+    from bitcoinlib.keys import Key
+    for _ in range(24 if tier == 'quick' else 600):
+        cases += 1
+        wt = rng.choice(['legacy', 'segwit'])
+        version = rng.choice([1, 1, 2, 3])
+        n_in = rng.choice([1, 2])
+        which = rng.randrange(n_in)
+        op, arg = rng.choice([('set_locktime_relative_blocks', rng.choice([1, 100, 65535])), ('set_locktime_relative_time', rng.choice([512, 3600, 512 * 65535])),
+                              ('set_locktime_blocks', rng.choice([1, 650000, 499999999])), ('set_locktime_time', rng.choice([500000001, 1700000000])), (None, None)])
+        supplied = {'witness_type': wt, 'version': version, 'inputs': n_in, 'call': '%s(%r, input %d)' % (op, arg, which) if op and 'relative' in op else '%s(%r)' % (op, arg)}
+        try:
+            t = Transaction(version=version, network='bitcoin', witness_type=wt)
+            for k in range(n_in):
+                t.add_input(prev_txid=bytes(rng.getrandbits(8) for _ in range(32)), output_n=k, keys=[Key(rng.randrange(1, 2 ** 250))], value=100000, witness_type=wt)
+            t.add_output(150000 if n_in == 2 else 90000, lock_script=b'\x00\x14' + bytes(range(20)))
+            t.sign()
+            if op is not None:
+                if 'relative' in op:
+                    getattr(t, op)(arg, which)
+                else:
+                    getattr(t, op)(arg)
+            raw = t.raw()
+            pv, pins, pouts, plock, pwit, used = wire.parse_tx(raw)
+            back = {'version': pv, 'locktime': plock, 'sequences': [d for a, b, c, d, e in pins], 'outputs': [(v, sc.hex()) for v, sc in pouts]}
+            reported = {'version': t.version_int, 'locktime': t.locktime, 'sequences': [i.sequence for i in t.inputs], 'outputs': [(o.value, o.lock_script.hex()) for o in t.outputs]}
+            problems = []
+            if back != reported or used != len(raw):
+                problems.append('the object reports %r, its bytes say %r' % (reported, back))
+            if op == 'set_locktime_relative_blocks' and not (pv >= 2 and back['sequences'][which] == arg):
+                problems.append('BIP68 block lock %d on input %d serialised as version %d, sequence %#x' % (arg, which, pv, back['sequences'][which]))
+            if op == 'set_locktime_relative_time' and not (pv >= 2 and back['sequences'][which] == (1 << 22) | (arg // 512)):
+                problems.append('BIP68 time lock %d s on input %d serialised as version %d, sequence %#x' % (arg, which, pv, back['sequences'][which]))
+            if op in ('set_locktime_blocks', 'set_locktime_time') and plock != arg:
+                problems.append('lock time %d serialised as %d' % (arg, plock))
+            if problems:
+                fail('API-built transaction changed through %s' % op, raw, '; '.join(problems)[:400], repr(supplied))
+            else:
+                ok += 1
+        except Exception as e:
+            fail('API-built transaction changed through %s' % op, b'', 'raises %r (supplied %s)' % (e, repr(supplied)[:200]), 'a transaction')
     res = {'contract': 'Transaction.parse/raw[bounded]', 'target': 'bitcoinlib.transactions.Transaction.parse_bytesio, raw, txid', 'status': 'ok', 'props': ['C06'],
            'bounded': '%d random well-formed transactions (see module docstring for the shape distribution)' % n,
            'paths': cases, 'obligations': [{'name': 'Transaction#bounded-parse-raw-roundtrip', 'kind': 'bounded', 'paths': cases, 'discharged': ok,
